@@ -285,11 +285,27 @@ C05Stmts == {
 C05Cases == { [st |-> st, sid |-> sid] : st \in C05Stmts, sid \in {"I", "S7", "S40", "E"} }
 
 -----------------------------------------------------------------------------
-StoreOf(sid) == CASE sid = "T" -> StoreT [] sid = "I" -> StoreI [] sid = "F" -> StoreF [] sid = "E" -> <<>>
-                  [] sid = "J" -> StoreJ [] sid = "O" -> StoreO [] sid = "M" -> StoreM [] sid = "G" -> StoreG [] sid = "V" -> StoreV [] sid = "S40" -> SeqStore(40) [] sid = "S7" -> SeqStore(7) [] sid \in {SizeId(n) : n \in 0..100} -> SeqStore(CHOOSE n \in 0..100 : SizeId(n) = sid) [] OTHER -> <<>>
-StoreIds == {"T", "I", "F", "E", "J", "V", "O", "G", "M", "S40", "S7"} \cup {SizeId(n) : n \in SizesSmall \cup SizesBig}
+(* c05k: the cases of the KvCache design model as real statements.  Rows k1..kn with value i; the key condition K
+   is `key in (...)`, the alias predicate P is `a in (...)`, the dependent column is a + 0:
+       select key, int(value) as a, a + 0 as d where key in (K keys) | a in (P values)                            *)
+RECURSIVE StoreK(_)
+StoreK(n) == IF n = 0 THEN <<>> ELSE Append(StoreK(n - 1), SP(<<107>> \o Dig(n), Dig(n)))
+KeyItems(S) == LET seqS == SelectSeq([i \in 1..5 |-> i], LAMBDA i : i \in S) IN [j \in 1..Len(seqS) |-> AStr(<<107>> \o Dig(seqS[j]))]
+ValItems(S) == LET seqS == SelectSeq([i \in 1..5 |-> i], LAMBDA i : i \in S) IN [j \in 1..Len(seqS) |-> AInt(seqS[j])]
+KCond(S) == IF S = {} THEN ABin("=", AKey, AStr(<<122, 122>>)) ELSE AIn(AKey, KeyItems(S))
+PCond(S) == IF S = {} THEN ABin("=", AName("a"), AInt(0)) ELSE AIn(AName("a"), ValItems(S))
+CacheStmt(KS, PS, swap) ==
+  Select(<<F(AKey, ""), F(Call1("int", AVal), "a"), F(ABin("+", AName("a"), AInt(0)), "d")>>,
+         IF swap THEN ABin("|", PCond(PS), KCond(KS)) ELSE ABin("|", KCond(KS), PCond(PS)), <<>>, <<>>, NoLim)
+C05KFor(n) == { [st |-> CacheStmt(KS, PS, swap), sid |-> "K" \o ToString(n)] : KS \in SUBSET (1..n), PS \in SUBSET (1..n), swap \in BOOLEAN }
+C05KCases == UNION { C05KFor(n) : n \in 1..(IF Scale >= 2 THEN 5 ELSE 4) }
 
-Cases == CASE Mode = "c01" -> C01Cases [] Mode = "c10" -> C10Cases [] Mode = "c04" -> C04Cases [] Mode = "c08" -> C08Select [] Mode = "c08d" -> C08Delete [] Mode = "c07" -> C07Cases [] Mode = "c09" -> C09Cases [] Mode = "c05" -> C05Cases [] OTHER -> {}
+-----------------------------------------------------------------------------
+StoreOf(sid) == CASE sid = "T" -> StoreT [] sid = "I" -> StoreI [] sid = "F" -> StoreF [] sid = "E" -> <<>>
+                  [] sid = "J" -> StoreJ [] sid = "O" -> StoreO [] sid = "M" -> StoreM [] sid = "G" -> StoreG [] sid = "V" -> StoreV [] sid = "S40" -> SeqStore(40) [] sid = "S7" -> SeqStore(7) [] sid \in {"K" \o ToString(n) : n \in 1..5} -> StoreK(CHOOSE n \in 1..5 : "K" \o ToString(n) = sid) [] sid \in {SizeId(n) : n \in 0..100} -> SeqStore(CHOOSE n \in 0..100 : SizeId(n) = sid) [] OTHER -> <<>>
+StoreIds == {"T", "I", "F", "E", "J", "V", "O", "G", "M", "S40", "S7"} \cup {SizeId(n) : n \in SizesSmall \cup SizesBig} \cup {"K" \o ToString(n) : n \in 1..5}
+
+Cases == CASE Mode = "c01" -> C01Cases [] Mode = "c10" -> C10Cases [] Mode = "c04" -> C04Cases [] Mode = "c08" -> C08Select [] Mode = "c08d" -> C08Delete [] Mode = "c07" -> C07Cases [] Mode = "c09" -> C09Cases [] Mode = "c05" -> C05Cases [] Mode = "c05k" -> C05KCases [] OTHER -> {}
 
 \* enumeration is split so that TLC's workers share it: Init picks a partition, Next a case of it
 FieldTag(c) == IF Len(c.st.fields) >= 2 THEN <<c.st.fields[2].e.k, c.st.fields[2].e.op, Len(c.st.fields[2].e.a)>> ELSE <<>>
